@@ -50,6 +50,8 @@ def deviations(ctx):
     for dev, inv in (('{"R1Ignored"}', "NilImpliesInForce"), ('{"NoThreadLock"}', ("NNPRequestedLoads", "NNPBeforeInstallSameThread")), ('{"SupportedFlags0"}', "SupportedTrue"), ('{"PrctlErrorSwallowed"}', ("NNPBeforeInstallSameThread", "PrctlFailureStopsLoad")),
                      ('{"PrctlBeforeAssemble"}', ("NNPRequestedLoads", "NNPBeforeInstallSameThread", "EarlyFailurePure"))):
         jobs.append((dict(module="Loader", cfg=loaderfam.mc_cfg(dev=dev), name="dev_loader_" + dev.strip('{}"'), expect_violation=True), inv))
+    jobs.append((dict(module="Loader", cfg=loaderfam.mc_cfg(dev='{"SplitOversize"}', maxloads=2), name="dev_loader_SplitOversize", expect_violation=True),
+                 ("NilImpliesInForce", "SyncedCoverAll", "FlagsPassThrough")))
     jobs.append((dict(module="Loader", cfg=loaderfam.mc_cfg(dev='{"SharedDescriptor"}', maxloads=2, allow_deny=False, allow_other=True), name="dev_loader_SharedDescriptor", expect_violation=True),
                  ("NilImpliesInForce",)))
     # commands
